@@ -1866,3 +1866,245 @@ func ruleOffsetBack(c *Ctx) {
 			"the emitted Offset is not shown to be ≤ the match start position ("+detail+"): the match could refer to bytes before the start of the buffered stream")
 	}
 }
+
+// ---------------------------------------------------------------- R-PREFIX-BOUND / R-PREFIX-ALIGN
+
+func init() {
+	reg(&Rule{ID: "R-PREFIX-BOUND", Min: 3,
+		Doc: "every value returned by a common-prefix/suffix helper is proved to be at most the length of each of its two arguments (this discharges the summary 'r ≤ min(len(p), len(q))' that the other rules use)",
+		Run: rulePrefixBound})
+	reg(&Rule{ID: "R-PREFIX-ALIGN", Min: 3,
+		Doc: "inside the common-prefix/suffix helpers every slice value descends from exactly one of the two (possibly swapped) arguments, every comparison is between one slice of each, and both are advanced by the same amount",
+		Run: rulePrefixAlign})
+}
+
+func (c *Ctx) prefixHelpers() []*ssa.Function {
+	var out []*ssa.Function
+	for _, fn := range c.allFuncs {
+		sig := fn.Signature
+		if sig.Recv() == nil && sig.Params().Len() == 2 && sig.Results().Len() == 1 && isIntType(sig.Results().At(0).Type()) &&
+			isByteSlice(sig.Params().At(0).Type()) && isByteSlice(sig.Params().At(1).Type()) && fn.Parent() == nil {
+			out = append(out, fn)
+		}
+	}
+	return out
+}
+
+// intPairLemmas: for pairs of integer header phis x, y of one loop, the
+// invariants x + y = const and x − y = const, proved by direct induction.
+func (fi *FuncInfo) intPairLemmas() []Fact {
+	var out []Fact
+	for _, l := range fi.loops {
+		var ints []*ssa.Phi
+		for _, in := range l.Header.Instrs {
+			if ph, ok := in.(*ssa.Phi); ok && isIntType(ph.Type()) {
+				ints = append(ints, ph)
+			}
+		}
+		entry := -1
+		for i, p := range l.Header.Preds {
+			if !l.Blocks[p] {
+				if entry >= 0 {
+					entry = -2
+				} else {
+					entry = i
+				}
+			}
+		}
+		if entry < 0 {
+			continue
+		}
+		for i, x := range ints {
+			for j, y := range ints {
+				if i >= j {
+					continue
+				}
+				for _, sgn := range []int64{1, -1} {
+					base := fi.lin(x.Edges[entry]).addk(fi.lin(y.Edges[entry]), sgn)
+					g := linAtom(x.Name()).addk(linAtom(y.Name()), sgn).sub(base)
+					okI := true
+					for k, p := range l.Header.Preds {
+						gi := fi.lin(x.Edges[k]).addk(fi.lin(y.Edges[k]), sgn).sub(base)
+						cs := fi.edgeConds(p, l.Header)
+						var hyp []Fact
+						if l.Blocks[p] {
+							hyp = []Fact{{g, EQ}}
+						}
+						if !(fi.proveFlat(gi, cs, hyp) && fi.proveFlat(gi.scale(-1), cs, hyp)) {
+							okI = false
+						}
+					}
+					if okI {
+						out = append(out, Fact{g, EQ})
+					}
+				}
+			}
+		}
+	}
+	return out
+}
+
+func rulePrefixBound(c *Ctx) {
+	for _, fn := range c.prefixHelpers() {
+		fi := c.info(fn)
+		name := fnName(fn)
+		lem := append(append([]Fact{}, fi.extLemmas()...), fi.intPairLemmas()...)
+		n := 0
+		for _, b := range fn.Blocks {
+			r, ok := b.Instrs[len(b.Instrs)-1].(*ssa.Return)
+			if !ok || len(r.Results) != 1 {
+				continue
+			}
+			n++
+			key := fmt.Sprintf("%s:return#%d", name, n)
+			v := fi.lin(r.Results[0])
+			good := true
+			detail := ""
+			for pi, p := range fn.Params {
+				goal := v.sub(fi.lenOf(p))
+				ex := fi.validFacts(lem, b, nil)
+				for _, f := range append([]Fact{}, ex...) {
+					if f.Op == EQ {
+						ex = append(ex, Fact{f.L, LE}, Fact{f.L.scale(-1), LE})
+					}
+				}
+				if !(fi.proveFlat(goal, fi.condsAt(b), ex) || fi.proveAt(goal, b, ex) || fi.proveByCases(goal, b, ex)) {
+					good = false
+					detail = fmt.Sprintf("result %s vs len of argument %d", v, pi+1)
+				}
+			}
+			c.check(good, key, r.Pos(), "returned length ≤ len(p) and ≤ len(q)",
+				"the returned length is not proved to be at most the length of both arguments ("+detail+"): a zero-padded or mis-clamped tail compare can report bytes as equal that lie beyond the shorter slice (matches past the block end, n > BlockSize)")
+		}
+	}
+}
+
+// sliceRoot: the argument (or swap phi of the arguments) a byte-slice value descends from.
+func (fi *FuncInfo) sliceRoot(v ssa.Value, seen map[ssa.Value]bool) (ssa.Value, bool) {
+	if seen[v] {
+		return nil, true // cycle: decided by the other edges
+	}
+	seen[v] = true
+	switch x := v.(type) {
+	case *ssa.Parameter:
+		return x, true
+	case *ssa.Slice:
+		return fi.sliceRoot(x.X, seen)
+	case *ssa.Phi:
+		// a phi directly merging the two parameters is the swap: a root by itself
+		allParams := true
+		for _, e := range x.Edges {
+			if _, isP := e.(*ssa.Parameter); !isP {
+				allParams = false
+			}
+		}
+		if allParams {
+			return x, true
+		}
+		var root ssa.Value
+		for _, e := range x.Edges {
+			r, ok := fi.sliceRoot(e, seen)
+			if !ok {
+				return nil, false
+			}
+			if r == nil {
+				continue
+			}
+			if root != nil && r != root {
+				return nil, false
+			}
+			root = r
+		}
+		return root, true
+	}
+	return nil, false
+}
+
+func rulePrefixAlign(c *Ctx) {
+	for _, fn := range c.prefixHelpers() {
+		fi := c.info(fn)
+		name := fnName(fn)
+		bad := ""
+		nCmp := 0
+		root := func(v ssa.Value) (ssa.Value, bool) { return fi.sliceRoot(v, map[ssa.Value]bool{}) }
+		// every byte-slice phi has a single root
+		for _, ph := range fi.phis {
+			if !isByteSlice(ph.Type()) {
+				continue
+			}
+			if r, ok := root(ph); !ok || r == nil {
+				bad = fmt.Sprintf("the slice %s (%s) merges values that descend from different arguments", ph.Name(), c.pos(ph.Pos()))
+			}
+		}
+		for _, b := range fn.Blocks {
+			for _, in := range b.Instrs {
+				switch x := in.(type) {
+				case *ssa.BinOp:
+					if x.Op == token.XOR {
+						a, b2 := c.loadedSliceAny(x.X), c.loadedSliceAny(x.Y)
+						if a == nil || b2 == nil {
+							continue
+						}
+						nCmp++
+						ra, oka := root(a)
+						rb, okb := root(b2)
+						if !oka || !okb || ra == nil || rb == nil || ra == rb {
+							bad = fmt.Sprintf("the word compare at %s does not compare one slice of each argument", c.pos(x.Pos()))
+						}
+					}
+					if (x.Op == token.NEQ || x.Op == token.EQL) && isByteLoad(x.X) && isByteLoad(x.Y) {
+						nCmp++
+						ax := stripConv(x.X).(*ssa.UnOp).X.(*ssa.IndexAddr)
+						ay := stripConv(x.Y).(*ssa.UnOp).X.(*ssa.IndexAddr)
+						ra, oka := root(ax.X)
+						rb, okb := root(ay.X)
+						if !oka || !okb || ra == nil || rb == nil || ra == rb {
+							bad = fmt.Sprintf("the byte compare at %s does not compare one slice of each argument", c.pos(x.Pos()))
+						} else if !fi.lin(ax.Index).eq(fi.lin(ay.Index)) {
+							bad = fmt.Sprintf("the byte compare at %s uses different indexes (%s, %s)", c.pos(x.Pos()), fi.lin(ax.Index), fi.lin(ay.Index))
+						}
+					}
+				}
+			}
+		}
+		// equal advance: every re-slice of one web by a constant has a sibling re-slice of the other web by the same constant in the same block
+		for _, b := range fn.Blocks {
+			adv := map[ssa.Value]int64{}
+			for _, in := range b.Instrs {
+				if sl, ok := in.(*ssa.Slice); ok && isByteSlice(sl.Type()) && sl.Low != nil && sl.High == nil {
+					if k, isC := constInt(sl.Low); isC && k > 0 {
+						if r, ok := root(sl.X); ok && r != nil {
+							adv[r] += k
+						}
+					}
+				}
+			}
+			if len(adv) == 1 {
+				bad = fmt.Sprintf("block %d advances only one of the two slices", b.Index)
+			}
+			if len(adv) == 2 {
+				var ks []int64
+				for _, k := range adv {
+					ks = append(ks, k)
+				}
+				if ks[0] != ks[1] {
+					bad = fmt.Sprintf("block %d advances the two slices by different amounts", b.Index)
+				}
+			}
+		}
+		c.check(bad == "" && nCmp > 0, name+":alignment", fn.Pos(), fmt.Sprintf("%d comparisons, each between one slice of each argument at the same offset; both slices advance together", nCmp),
+			"alignment of the compared slices is lost: "+bad+": bytes are compared with the wrong partner (a slice compared with itself always matches)")
+	}
+}
+
+// loadedSliceAny: argument slice of a word loader call of either package.
+func (c *Ctx) loadedSliceAny(v ssa.Value) ssa.Value {
+	call, ok := v.(*ssa.Call)
+	if !ok || call.Call.StaticCallee() == nil || len(call.Call.Args) != 1 || !isByteSlice(call.Call.Args[0].Type()) {
+		return nil
+	}
+	if b, isB := call.Type().Underlying().(*types.Basic); !isB || b.Info()&types.IsUnsigned == 0 {
+		return nil
+	}
+	return call.Call.Args[0]
+}
